@@ -188,10 +188,10 @@ theorem inorm2 : ItemsNormOK (cifNormalize expU) s2.db := by
 
 /-- `_Åß` defined; present under `_A ring ß`, in container 1 only; `_Ås` absent -/
 example : s3.db.hasItem 1 (cifNormalize expU [95, 65, 778, 223]) = true :=
-  ((C09_store_item_match expU s2 s3 h1 none [[95, 197, 223], [95, 98]] l3 [95, 65, 778, 223] 1 inorm2 hc3).2).2
+  ((createLoop_items_match expU s2 s3 h1 none [[95, 197, 223], [95, 98]] l3 [95, 65, 778, 223] 1 inorm2 hc3).2).2
     (Or.inl ⟨rfl, [95, 197, 223], by decide, by decide⟩)
 example : s3.db.hasItem 2 (cifNormalize expU [95, 65, 778, 223]) = false := by
-  have h := (C09_store_item_match expU s2 s3 h1 none [[95, 197, 223], [95, 98]] l3 [95, 65, 778, 223] 2 inorm2 hc3).2
+  have h := (createLoop_items_match expU s2 s3 h1 none [[95, 197, 223], [95, 98]] l3 [95, 65, 778, 223] 2 inorm2 hc3).2
   cases hh : s3.db.hasItem 2 (cifNormalize expU [95, 65, 778, 223]) with
   | false => rfl
   | true =>
@@ -199,7 +199,9 @@ example : s3.db.hasItem 2 (cifNormalize expU [95, 65, 778, 223]) = false := by
     · revert e; decide
     · revert e; decide
 
-/-- OBSERVATION (verdict "weak" in the review): the conclusion of `C09_store_item_match` is the row test `Db.hasItem`, which the
+/-- OBSERVATION (verdict "weak" in the review; REPAIRED by group gS: the row statement is now the lemma `createLoop_items_match`, and
+    `C09_store_item_match` concludes about `getItemLoop` / `addItem` / `createLoop` — applied below): the conclusion of the earlier
+    `C09_store_item_match` was the row test `Db.hasItem`, which the
     docstring glosses as "what makes cif_container_get_value / get_item_loop find it".  For get_value that is not so: in the very
     state above (loop just created, no packet) the row is there and `cif_container_get_value` answers CIF_NOSUCH_ITEM under the
     equivalent AND under the original spelling; `cif_container_get_item_loop` does find it — a statement the theorem does not make. -/
@@ -208,6 +210,16 @@ example : s3.db.hasItem 1 (cifNormalize expU [95, 197, 223]) = true ∧
     (getValue s3 h1 (some (apiName expU true [95, 65, 778, 223]))).2.toOption.isSome = false ∧
     (getItemLoop s3 h1 (some (apiName expU true [95, 65, 778, 223]))).2.toOption.isSome = true := ⟨by rfl, by rfl, by rfl, by rfl⟩
 
+
+/-! ### the restated `C09_store_item_match` (API level), applied -/
+
+theorem invS2 : InvS s2 := createFrame_invS (createBlock_invS InvS.empty _ _) _ _ _
+
+/-- `_A ring ß` is found by get_item_loop after `_Åß` was defined; `_Ås` answers CIF_NOSUCH_ITEM -/
+example : ∃ l', (getItemLoop s3 h1 (some (apiName expU true [95, 65, 778, 223]))).2 = .ok l' :=
+  ((C09_store_item_match expU s2 s3 invS2 h1 none [[95, 197, 223], [95, 98]] l3 [95, 65, 778, 223] inorm2 (by decide) hc3).2.1).2
+    (Or.inl ⟨[95, 197, 223], by decide, by decide⟩)
+
 /-! ### C09_table_survives_store -/
 
 /-- two keys differing in case only, nested list value: both conjuncts applied -/
@@ -215,9 +227,11 @@ def tbl2 : List (Str × Str × V) := [([75], [75], .chr true [49]), ([107], [107
 
 example : Model.Serialize.deserialize (fun _ => none) (Model.Serialize.ser (.tbl tbl2)) = some (.tbl tbl2, []) ∧
     Value.tableKeys (.tbl tbl2) = .ok [[75], [107]] :=
-  ⟨(C09_table_survives_store (fun _ => none) tbl2 (by decide)).1, by rfl⟩
+  ⟨C09_table_serialisation_roundtrip (fun _ => none) tbl2 (by decide), by rfl⟩
 
-/-- OBSERVATION: the second conjunct needs nothing about serialisation — it holds with ANY partial function `g` in the place of
+/-- OBSERVATION (about the statement as reviewed; REPAIRED: `C09_table_survives_store` is now about `Store.Codec.setValueC` /
+    `Store.getValue` and relates `Value.table*` on the value read back to `Normalize.Entries` on the entries stored; the serialisation
+    round trip alone is `C09_table_serialisation_roundtrip`): the second conjunct needed nothing about serialisation — it holds with ANY partial function `g` in the place of
     `deserialize parse ∘ ser` for which the first conjunct holds, because it only says "`t = .tbl es` → the four table functions
     agree on `t` and `.tbl es`".  All content of the theorem is the C07 round trip (first conjunct). -/
 example (g : V → Option (V × List (List Nat))) (es : List (Str × Str × V)) (h1 : g (.tbl es) = some (.tbl es, [])) :
